@@ -1,16 +1,36 @@
 (* C11, restricted and PROVED: "Normalize's output lines up with Match's
-   positions".
+   positions": tokenising the ORIGINAL text in normalising mode (what Match
+   sees) gives, word for word and line for line, the same tokens as tokenising
+   the text written by Normalize in normalising mode.
 
-   Part A  [retokenize_normalized]: for a raw-mode token list satisfying the
-           boolean predicate [canon], tokenising the text written by
-           [normalize_out] in normalising mode gives exactly the non-EOL
-           tokens, word for word ([norm_word]) and line for line.
+   Part A  [retokenize_normalized]: for ANY token list satisfying the boolean
+           predicate [canon], tokenising [normalize_out toks] in normalising
+           mode gives exactly the non-EOL tokens, each word mapped by
+           [norm_word], on the same lines, and no Copyright pseudo match.
    Part B  [raw_vs_norm]: for one input, the normalising-mode tokens are the
-           [norm_word] images of the raw-mode non-EOL tokens, provided the raw
-           run never defers a line break (hyphen before newline), never
-           flushes a word containing '&' or a capitalised "Https..." and no
-           line is an ignorable notice in either mode.
-   C11_restricted: the two token streams of the property are equal.
+           [norm_word] images of the raw-mode non-EOL tokens on the same
+           lines, and the Copyright pseudo matches are the same, provided the
+           raw-mode run flushes only good word buffers ([flushes_ok]: html
+           unescaping leaves the word alone, and the word is not a capitalised
+           "Https.."/"HTTPS..").  Hyphen-newline deferral is ALLOWED: the two
+           runs move in lockstep.  The ignorable-notice decisions are PROVED
+           equal (the three expressions are case-insensitive).
+           [raw_tok_good], [raw_mono]: for EVERY input the raw-mode tokens have
+           the canonical word shape and non-decreasing lines starting at 1, so
+           [canon] reduces to its residual part [canon_resid] ([canon_split]).
+   C11_restricted: under [tables_ok T], [flushes_ok] and [canon_resid] the two
+           token streams of the property are equal.
+
+   The residual conditions are the known exception classes:
+     (a) a cleaned line that is an ignorable notice      [line_ign_ok]
+     (b)/(d) a cleaned word ending in '-' before a written line break
+                                                          [line_hyphen]
+     (c) a cleaned word whose lower-casing contains "https"   [has_https]
+   and two found while proving:
+     (c') a word buffer "Https.."/"HTTPS.." (first rune changed by ToLower):
+          Part B fails for it (the property itself may still hold)  [cap_https]
+     (e) a word changed by html.UnescapeString (e.g. "&#65;bc" -> "Abc": the
+          unescaped runes are never lower-cased; the property FAILS) [unesc_fix]
 
    All table facts used are the fields of [tables_ok], proved for the concrete
    tables [TokInv.T0] and [TokWF.T1].  Stdlib only, no axioms. *)
@@ -64,28 +84,46 @@ Definition line_ign_ok (T : tables) (ws : list word) : bool :=
 Definition line_hyphen (line_rev : list word) : bool :=
   match line_rev with w :: _ => ends_hyphen w | [] => false end.
 
-(* [cur]: the line the next token must carry; [line_rev]: the words of that
-   line seen so far, last first.  An EOL token closes the line; when another
-   token follows, a newline will be written after the line, so its last word
-   must not end in '-' (exceptions (b)/(d)). *)
-Fixpoint canon_go (T : tables) (cur : N) (line_rev : list word) (toks : list (word * N)) : bool :=
+(* [prev]: the line of the previous token (1 at the start); [line_rev]: the
+   words of line [prev] seen so far, last first.  The writer emits [l - prev]
+   newlines before a token of line [l > prev]: the line [prev] is then
+   complete, it must not be an ignorable notice and its last word must not
+   end in '-' (exceptions (a), (b)/(d)).  EOL tokens write nothing. *)
+Fixpoint canon_go (T : tables) (prev : N) (line_rev : list word) (toks : list (word * N)) : bool :=
   match toks with
   | [] => line_ign_ok T (rev line_rev)
   | (w, l) :: r =>
-    N.eqb l cur &&
-    if is_eol w
-    then line_ign_ok T (rev line_rev)
-         && (match r with [] => true | _ => negb (line_hyphen line_rev) end)
-         && canon_go T (cur + 1) [] r
-    else word_ok T w && canon_go T cur (w :: line_rev) r
+    if N.eqb l prev then
+      if is_eol w then canon_go T prev line_rev r
+      else word_ok T w && canon_go T prev (w :: line_rev) r
+    else
+      N.ltb prev l && line_ign_ok T (rev line_rev) && negb (line_hyphen line_rev) &&
+      if is_eol w then canon_go T l [] r else word_ok T w && canon_go T l [w] r
   end.
 Definition canon (T : tables) (toks : list (word * N)) : bool := canon_go T 1 [] toks.
 
-(* the structural part alone *)
-Fixpoint lines_chk (cur : N) (toks : list (word * N)) : option N :=
+(* [canon] minus what every raw-mode run provides (lines non-decreasing from
+   1, words of the canonical shape): the residual conditions
+   (a) cleaned line not ignorable, (c) no "https" in a lower-cased word,
+   (b)/(d) no word ending in '-' before a written newline *)
+Fixpoint canon_resid (T : tables) (prev : N) (line_rev : list word) (toks : list (word * N)) : bool :=
   match toks with
-  | [] => Some cur
-  | (w, l) :: r => if N.eqb l cur then lines_chk (if is_eol w then cur + 1 else cur) r else None
+  | [] => line_ign_ok T (rev line_rev)
+  | (w, l) :: r =>
+    if N.eqb l prev then
+      if is_eol w then canon_resid T prev line_rev r
+      else negb (has_https (lw T w)) && canon_resid T prev (w :: line_rev) r
+    else
+      line_ign_ok T (rev line_rev) && negb (line_hyphen line_rev) &&
+      if is_eol w then canon_resid T l [] r
+      else negb (has_https (lw T w)) && canon_resid T l [w] r
+  end.
+
+(* lines never decrease *)
+Fixpoint mono (prev : N) (toks : list (word * N)) : Prop :=
+  match toks with
+  | [] => True
+  | (_, l) :: r => prev <= l /\ mono l r
   end.
 
 (* ---------- table hypotheses ---------- *)
@@ -100,18 +138,27 @@ Definition pm_id (T : tables) (c : rune) : bool :=
 Definition wchar_ok (T : tables) (c : rune) : bool :=
   negb (N.eqb c 10) && negb (is_space T c) && pm_id T c && negb (N.eqb c 38).
 
+(* the runes of the (?i) literals of the three ignorableTexts expressions:
+   "copyright ", "(c) ", "[yyyy]", "copyright (c) [dates of first publication]" *)
+Definition pat_runes : list rune :=
+  [99;111;112;121;114;105;103;104;116;32;40;41;91;93;100;97;101;115;102;117;98;108;110].
+
 Record tables_ok (T : tables) : Prop := {
   tk_lower_idem : forall c, to_lower T (to_lower T c) = to_lower T c;
   tk_lower_letter : forall c, is_letter T (to_lower T c) = is_letter T c;
   tk_lower_digit : forall c, is_digit T (to_lower T c) = is_digit T c;
   tk_digit_fix : forall c, is_digit T c = true -> to_lower T c = c;
-  tk_lower_mark : forall c k, In k [38; 41; 45; 46; 58] -> (to_lower T c = k <-> c = k);
+  tk_lower_mark : forall c k, In k [10; 38; 41; 45; 46; 58] -> (to_lower T c = k <-> c = k);
+  tk_lower_ci : forall c p, In p pat_runes -> ci_eq p (to_lower T c) = ci_eq p c;
+  tk_lower_adigit : forall c, ascii_digit (to_lower T c) = ascii_digit c;
+  tk_lower_az : forall c, ci_az (to_lower T c) = ci_az c;
   tk_lower_http : to_lower T 104 = 104 /\ to_lower T 116 = 116 /\ to_lower T 112 = 112;
   tk_letter_ok : forall c, is_letter T c = true -> wchar_ok T c = true;
   tk_digit_ok : forall c, is_digit T c = true -> wchar_ok T c = true;
   tk_dot_ok : wchar_ok T 46 = true;
   tk_hyphen_ok : wchar_ok T 45 = true;
   tk_space : is_space T 32 = true;
+  tk_space_nostart : starts_word T 32 = false;
   tk_marks_letter : is_letter T 46 = false /\ is_letter T 58 = false /\ is_letter T 41 = false;
   tk_marks_digit : is_digit T 58 = false /\ is_digit T 41 = false;
   tk_unescape : forall w, existsb (N.eqb 38) w = false -> unescape T w = w;
@@ -121,15 +168,17 @@ Record tables_ok (T : tables) : Prop := {
 
 (* ---------- the concrete tables ---------- *)
 
-Ltac cmp_cases :=
-  repeat match goal with
-         | |- context [N.leb ?a ?b] => destruct (N.leb_spec a b)
-         | |- context [N.eqb ?a ?b] => destruct (N.eqb_spec a b)
-         | H : context [N.leb ?a ?b] |- _ => destruct (N.leb_spec a b)
-         | H : context [N.eqb ?a ?b] |- _ => destruct (N.eqb_spec a b)
-         end.
+Ltac cmp1 :=
+  match goal with
+  | H : context [N.leb ?a ?b] |- _ => destruct (N.leb_spec a b); try (exfalso; lia)
+  | H : context [N.eqb ?a ?b] |- _ => destruct (N.eqb_spec a b); try (exfalso; lia)
+  | |- context [N.leb ?a ?b] => destruct (N.leb_spec a b); try (exfalso; lia)
+  | |- context [N.eqb ?a ?b] => destruct (N.eqb_spec a b); try (exfalso; lia)
+  end.
+Ltac table_fact := cbn in *; repeat (cmp1; cbn in *); try reflexivity; try discriminate; try lia.
 
-Ltac table_fact := cbn in *; cmp_cases; cbn in *; try reflexivity; try discriminate; try lia.
+Ltac in_cases H :=
+  repeat (destruct H as [H|H]; [subst|]); [..|destruct H].
 
 Theorem tables_ok_T0 : tables_ok TokInv.T0.
 Proof.
@@ -138,11 +187,15 @@ Proof.
   - intros c. table_fact.
   - intros c. table_fact.
   - intros c. table_fact.
-  - intros c k Hk. cbn in Hk.
-    destruct Hk as [<-|[<-|[<-|[<-|[<-|[]]]]]]; table_fact; split; intros; lia.
+  - intros c k Hk. cbn in Hk. in_cases Hk; table_fact; split; intros; lia.
+  - intros c p Hp. unfold pat_runes in Hp. cbn [In] in Hp. unfold ci_eq, ascii_lower.
+    in_cases Hp; table_fact.
+  - intros c. unfold ascii_digit. table_fact.
+  - intros c. unfold ci_az, ascii_lower. table_fact.
   - repeat split.
   - intros c. unfold wchar_ok, pm_id. table_fact.
   - intros c. unfold wchar_ok, pm_id. table_fact.
+  - reflexivity.
   - reflexivity.
   - reflexivity.
   - reflexivity.
@@ -153,6 +206,32 @@ Proof.
   - discriminate.
 Qed.
 
+Theorem tables_ok_T1 : tables_ok TokWF.T1.
+Proof.
+  constructor.
+  - intros c. unfold TokWF.T1, is_upper0. table_fact.
+  - intros c. unfold TokWF.T1, is_upper0, is_lower0. table_fact.
+  - intros c. unfold TokWF.T1, is_upper0. table_fact.
+  - intros c. unfold TokWF.T1, is_upper0. table_fact.
+  - intros c k Hk. cbn in Hk. unfold TokWF.T1, is_upper0. in_cases Hk; table_fact; split; intros; lia.
+  - intros c p Hp. unfold pat_runes in Hp. cbn [In] in Hp. unfold ci_eq, ascii_lower, TokWF.T1, is_upper0.
+    in_cases Hp; table_fact.
+  - intros c. unfold ascii_digit, TokWF.T1, is_upper0. table_fact.
+  - intros c. unfold ci_az, ascii_lower, TokWF.T1, is_upper0. table_fact.
+  - repeat split.
+  - intros c. unfold wchar_ok, pm_id, TokWF.T1, is_upper0, is_lower0, TokWF.in_runes. table_fact.
+  - intros c. unfold wchar_ok, pm_id, TokWF.T1, TokWF.in_runes. table_fact.
+  - reflexivity.
+  - reflexivity.
+  - reflexivity.
+  - reflexivity.
+  - repeat split.
+  - repeat split.
+  - reflexivity.
+  - reflexivity.
+  - intros k. unfold TokWF.T1. cbn [interchangeable].
+    destruct (word_eqb k _); discriminate.
+Qed.
 
 (* ================================================================== *)
 (* 1. The state machine, both modes, read through its projections      *)
@@ -250,6 +329,53 @@ Proof.
   destruct (N.eqb_spec r NLr) as [E|_]; [exfalso; apply Hr; exact E|].
   destruct (obuf_rev s) as [|c ob'] eqn:Eo; [congruence|].
   rewrite Hsp, He. cbv zeta. rewrite Eo. destruct (punct_map T r); reflexivity.
+Qed.
+
+(* the remaining branches: a deferred line break in progress *)
+Lemma step_nl_hyph T n s :
+  hd_hyphen (obuf_rev s) = true ->
+  step T n s 10 = set_flags (set_bufs s (tl (obuf_rev s)) (linebuf_rev s)) true (dWord s).
+Proof.
+  intros Hh. unfold step. change (N.eqb 10 NLr) with true. cbv iota.
+  destruct (obuf_rev s) as [|c ob']; [discriminate|]. cbn [hd_hyphen] in Hh.
+  change HYPHEN with 45. rewrite Hh. reflexivity.
+Qed.
+
+Lemma step_space_deol T n s r :
+  r <> 10 -> obuf_rev s <> [] -> is_space T r = true -> dEOL s = true -> step T n s r = s.
+Proof.
+  intros Hr Hob Hsp He. unfold step.
+  destruct (N.eqb_spec r NLr) as [E|_]; [exfalso; apply Hr; exact E|].
+  destruct (obuf_rev s) as [|c ob'] eqn:Eo; [congruence|].
+  rewrite Hsp, He. reflexivity.
+Qed.
+
+Lemma step_space_dword T n s r :
+  r <> 10 -> obuf_rev s <> [] -> is_space T r = true -> dEOL s = false -> dWord s = true ->
+  let s' := step T n s r in
+  obuf_rev s' = [] /\ linebuf_rev s' = [] /\ line s' = line s + 1 /\
+  dEOL s' = false /\ dWord s' = false /\
+  toks_rev s' = line_toks T n (line s) (cur_lb T s) ++ toks_rev s /\
+  matches_rev s' = line_ms T n (line s) (cur_lb T s) ++ matches_rev s.
+Proof.
+  intros Hr Hob Hsp He Hw. cbv zeta. unfold step, cur_lb.
+  destruct (N.eqb_spec r NLr) as [E|_]; [exfalso; apply Hr; exact E|].
+  destruct (obuf_rev s) as [|c ob'] eqn:Eo; [congruence|].
+  rewrite Hsp, He. rewrite note_amp_dWord, Hw. fields. autorewrite with npf.
+  rewrite Eo, He. repeat split; reflexivity.
+Qed.
+
+Lemma step_char_gen T n s r :
+  r <> 10 -> obuf_rev s <> [] -> is_space T r = false ->
+  step T n s r =
+  set_bufs (if dEOL s then set_flags s false true else s)
+           ((match punct_map T r with Some rep => rev (map (to_lower T) rep) | None => [to_lower T r] end)
+            ++ obuf_rev s) (linebuf_rev s).
+Proof.
+  intros Hr Hob Hsp. unfold step.
+  destruct (N.eqb_spec r NLr) as [E|_]; [exfalso; apply Hr; exact E|].
+  destruct (obuf_rev s) as [|c ob'] eqn:Eo; [congruence|].
+  rewrite Hsp. cbv zeta. destruct (dEOL s); fields; rewrite Eo; destruct (punct_map T r); reflexivity.
 Qed.
 
 Lemma finish_proj T n s :
@@ -619,75 +745,104 @@ Proof.
   rewrite P2, A2. reflexivity.
 Qed.
 
-Lemma neq_succ (p : N) : N.eqb p (p + 1) = false.
-Proof. apply N.eqb_neq. lia. Qed.
-Lemma succ_neq (p : N) : N.eqb (p + 1) p = false.
-Proof. apply N.eqb_neq. lia. Qed.
-
 Lemma emit_cons L w line_rev : emit L (w :: line_rev) = emit L line_rev ++ [(norm_word T w, L)].
 Proof. unfold emit. cbn [rev]. rewrite map_app. reflexivity. Qed.
 
-(* [b = true]: the last token was an EOL token of line [prev]: the line
-   [line_rev] is complete and the next token carries line [prev + 1];
-   [b = false]: inside line [prev], at least one word written *)
-Lemma write_rest_run r : forall (b : bool) prev line_rev acc s,
+Lemma ign_ok_nil : line_ign_ok T (rev []) = true.
+Proof. unfold line_ign_ok. cbn [rev map stringify]. rewrite ignorable_nil. reflexivity. Qed.
+
+Lemma Hold_line s line_rev L L' acc : L = L' -> Hold s line_rev L acc -> Hold s line_rev L' acc.
+Proof. intros ->. exact (fun H => H). Qed.
+
+(* empty lines *)
+Lemma hold_nls k : forall s L acc,
+  Hold s [] L acc -> Hold (fold_left (step T true) (repeat 10 k) s) [] (L + N.of_nat k) acc.
+Proof.
+  induction k as [|k IH]; intros s L acc H.
+  - cbn [repeat fold_left]. apply (Hold_line s [] L); [cbn; lia|exact H].
+  - cbn [repeat fold_left].
+    pose proof (hold_nl s [] L acc H (Forall_nil _) ign_ok_nil eq_refl) as H1.
+    apply IH in H1. eapply Hold_line; [|exact H1]. lia.
+Qed.
+
+Lemma breaks_same p : breaks p p = [].
+Proof. unfold breaks. rewrite N.sub_diag. reflexivity. Qed.
+
+(* the line [prev] is complete and the writer moves to line [l > prev] *)
+Lemma hold_breaks s line_rev prev l acc :
+  Hold s line_rev prev acc -> WordsOK line_rev -> prev < l ->
+  line_ign_ok T (rev line_rev) = true -> line_hyphen line_rev = false ->
+  Hold (fold_left (step T true) (breaks prev l) s) [] l (rev (emit prev line_rev) ++ acc).
+Proof.
+  intros H HW Hl Hi Hh. unfold breaks.
+  destruct (N.to_nat (l - prev)) as [|k] eqn:Ek; [lia|].
+  cbn [repeat fold_left].
+  pose proof (hold_nl s line_rev prev acc H HW Hi Hh) as H1.
+  apply (hold_nls k) in H1. eapply Hold_line; [|exact H1]. lia.
+Qed.
+
+Lemma hold_space_empty s L acc : Hold s [] L acc -> step T true s 32 = s.
+Proof.
+  intro H. rewrite (step_start T true s 32 ltac:(discriminate) (h_ob _ _ _ _ H)).
+  rewrite (tk_space_nostart T TK). reflexivity.
+Qed.
+
+(* a word written after [line_rev] on the same line *)
+Lemma hold_feed s L acc line_rev w :
+  Hold s line_rev L acc -> WordsOK line_rev -> word_ok T w = true ->
+  Hold (fold_left (step T true) (32 :: w) s) (w :: line_rev) L acc.
+Proof.
+  intros H HW Hw. destruct line_rev as [|w0 lr].
+  - cbn [fold_left]. rewrite (hold_space_empty s L acc H). apply hold_feed_first; assumption.
+  - apply hold_feed_next; assumption.
+Qed.
+
+Lemma write_rest_run r : forall prev line_rev acc s,
   Hold s line_rev prev acc -> WordsOK line_rev ->
-  (if b then line_ign_ok T (rev line_rev) = true /\ (r <> [] -> line_hyphen line_rev = false) /\
-             canon_go T (prev + 1) [] r = true
-   else line_rev <> [] /\ canon_go T prev line_rev r = true) ->
+  canon_go T prev line_rev r = true ->
   let f := finish T true (fold_left (step T true) (write_rest r prev) s) in
   toks_rev f = rev (emit prev line_rev ++ map (normtok T) (filter non_eol r)) ++ acc /\
   matches_rev f = [].
 Proof.
-  induction r as [|[w l] r' IH]; intros b prev line_rev acc s H HW Hb; cbv zeta.
+  induction r as [|[w l] r' IH]; intros prev line_rev acc s H HW Hc; cbv zeta.
   - cbn [write_rest fold_left filter map]. rewrite app_nil_r.
-    apply hold_finish; try assumption.
-    destruct b; [tauto|]. destruct Hb as [_ Hc]. exact Hc.
-  - destruct b.
-    + destruct Hb as (Hi & Hh & Hc). cbn [canon_go] in Hc.
-      apply andb_true_iff in Hc. destruct Hc as [Hl Hc]. apply N.eqb_eq in Hl. subst l.
-      cbn [write_rest]. rewrite N.eqb_refl, succ_neq. cbn [app fold_left].
-      pose proof (hold_nl s line_rev prev acc H HW Hi (Hh ltac:(discriminate))) as H1.
-      cbn [filter]. unfold non_eol at 1. cbn [fst].
+    apply hold_finish; assumption.
+  - cbn [write_rest canon_go] in *. cbn [filter]. unfold non_eol at 1. cbn [fst].
+    destruct (N.eqb_spec l prev) as [->|Hne].
+    + rewrite breaks_same. cbn [app].
       destruct (is_eol w) eqn:Ew; cbn [negb].
-      * apply andb_true_iff in Hc. destruct Hc as [Hc Hc3].
-        apply andb_true_iff in Hc. destruct Hc as [Hc1 Hc2].
-        destruct (IH true (prev + 1) [] _ _ H1 (Forall_nil _)) as [R1 R2].
-        { split; [exact Hc1|]. split; [reflexivity|exact Hc3]. }
-        cbn [app]. split; [|exact R2]. rewrite R1. unfold emit at 1. cbn [rev map app].
-        rewrite rev_app_distr, app_assoc. reflexivity.
+      * cbn [app]. apply IH; assumption.
       * apply andb_true_iff in Hc. destruct Hc as [Hw Hc].
-        cbn [app]. rewrite fold_left_app.
-        pose proof (hold_feed_first _ _ _ w H1 Hw) as H2.
-        destruct (IH false (prev + 1) [w] _ _ H2 (Forall_cons _ Hw (Forall_nil _))) as [R1 R2].
-        { split; [discriminate|exact Hc]. }
-        split; [|exact R2]. Show. rewrite R1. cbn [map]. unfold normtok at 2. cbn [fst snd].
-        unfold emit at 1. cbn [rev map app].
-        rewrite !rev_app_distr, <- !app_assoc. cbn [rev app]. rewrite <- !app_assoc. reflexivity.
-    + destruct Hb as (Hne & Hc). cbn [canon_go] in Hc.
-      apply andb_true_iff in Hc. destruct Hc as [Hl Hc]. apply N.eqb_eq in Hl. subst l.
-      cbn [write_rest]. rewrite N.eqb_refl, neq_succ.
-      cbn [filter]. unfold non_eol at 1. cbn [fst].
-      destruct (is_eol w) eqn:Ew; cbn [negb].
-      * apply andb_true_iff in Hc. destruct Hc as [Hc Hc3].
-        apply andb_true_iff in Hc. destruct Hc as [Hc1 Hc2].
-        cbn [app]. apply (IH true prev line_rev acc s H HW).
-        split; [exact Hc1|]. split; [|exact Hc3].
-        intro Hr. destruct r'; [congruence|]. apply negb_true_iff. exact Hc2.
-      * apply andb_true_iff in Hc. destruct Hc as [Hw Hc].
-        destruct line_rev as [|w0 lr]; [congruence|].
         cbn [app]. change (32 :: w ++ write_rest r' prev) with ((32 :: w) ++ write_rest r' prev).
         rewrite fold_left_app.
-        pose proof (hold_feed_next _ _ _ _ _ w H HW Hw) as H2.
-        destruct (IH false prev (w :: w0 :: lr) _ _ H2 (Forall_cons _ Hw HW)) as [R1 R2].
-        { split; [discriminate|exact Hc]. }
-        split; [|exact R2]. rewrite R1. rewrite (emit_cons prev w (w0 :: lr)).
+        pose proof (hold_feed _ _ _ _ w H HW Hw) as H2.
+        destruct (IH prev (w :: line_rev) _ _ H2 (Forall_cons _ Hw HW) Hc) as [R1 R2].
+        split; [|exact R2]. etransitivity; [exact R1|]. rewrite (emit_cons prev w line_rev).
         cbn [map]. unfold normtok at 2. cbn [fst snd]. rewrite <- app_assoc. reflexivity.
+    + apply andb_true_iff in Hc. destruct Hc as [Hc Hc4].
+      apply andb_true_iff in Hc. destruct Hc as [Hc Hc3].
+      apply andb_true_iff in Hc. destruct Hc as [Hc1 Hc2].
+      apply N.ltb_lt in Hc1. apply negb_true_iff in Hc3.
+      rewrite fold_left_app.
+      pose proof (hold_breaks s line_rev prev l acc H HW Hc1 Hc2 Hc3) as H1.
+      destruct (is_eol w) eqn:Ew; cbn [negb].
+      * cbn [app].
+        destruct (IH l [] _ _ H1 (Forall_nil _) Hc4) as [R1 R2].
+        split; [|exact R2]. etransitivity; [exact R1|]. unfold emit at 1. cbn [rev map app].
+        rewrite rev_app_distr, app_assoc. reflexivity.
+      * apply andb_true_iff in Hc4. destruct Hc4 as [Hw Hc4].
+        cbn [app]. rewrite fold_left_app.
+        pose proof (hold_feed_first _ _ _ w H1 Hw) as H2.
+        destruct (IH l [w] _ _ H2 (Forall_cons _ Hw (Forall_nil _)) Hc4) as [R1 R2].
+        split; [|exact R2]. etransitivity; [exact R1|]. cbn [map]. unfold normtok at 2. cbn [fst snd].
+        unfold emit at 1. cbn [rev map app].
+        rewrite !rev_app_distr, <- !app_assoc. cbn [rev app]. rewrite <- !app_assoc. reflexivity.
 Qed.
 
 Lemma Hold_init : Hold init_state [] 1 [].
 Proof. constructor; reflexivity. Qed.
 
+(* Part A *)
 Theorem retokenize_normalized toks :
   canon T toks = true ->
   d_toks (tokenize_runes T true (normalize_out toks)) = map (normtok T) (filter non_eol toks) /\
@@ -701,30 +856,889 @@ Proof.
   unfold canon in Hc. destruct toks as [|[w l] r].
   - cbn [normalize_out fold_left filter map rev]. cbn [canon_go] in Hc.
     destruct (hold_finish _ _ _ _ Hold_init (Forall_nil _) Hc) as [R1 R2]. split; assumption.
-  - assert (Hgen : (r <> [] \/ is_eol w = false) ->
-                   normalize_out ((w, l) :: r) = (if is_eol w then [] else w) ++ write_rest r 1).
-    { intros Hor. cbn [normalize_out]. destruct r as [|t r']; [|reflexivity].
-      destruct Hor as [Hor|Hor]; [congruence|]. rewrite Hor. cbn [write_rest]. rewrite app_nil_r. reflexivity. }
-    cbn [canon_go] in Hc. apply andb_true_iff in Hc. destruct Hc as [Hl Hc].
+  - (* the leading line breaks *)
+    assert (H0 : Hold (fold_left (step T true) (breaks 1 l) init_state) [] l [] /\ 1 <= l /\
+                 (if is_eol w then canon_go T l [] r else word_ok T w && canon_go T l [w] r) = true).
+    { cbn [canon_go] in Hc. destruct (N.eqb_spec l 1) as [->|Hne].
+      - rewrite breaks_same. cbn [fold_left]. split; [exact Hold_init|]. split; [lia|exact Hc].
+      - apply andb_true_iff in Hc. destruct Hc as [Hc Hc4].
+        apply andb_true_iff in Hc. destruct Hc as [Hc Hc3].
+        apply andb_true_iff in Hc. destruct Hc as [Hc1 Hc2].
+        apply N.ltb_lt in Hc1. split; [|split; [lia|exact Hc4]].
+        exact (hold_breaks _ [] 1 l [] Hold_init (Forall_nil _) Hc1 ign_ok_nil eq_refl). }
+    destruct H0 as (H0 & Hl1 & Hc0).
     cbn [filter]. unfold non_eol at 1. cbn [fst].
+    assert (Hgen : normalize_out ((w, l) :: r) =
+                   breaks 1 l ++ (if is_eol w then match r with [] => w | _ => [] end else w) ++ write_rest r l).
+    { cbn [normalize_out]. destruct r as [|t r'].
+      - cbn [write_rest]. rewrite app_nil_r. destruct (is_eol w); reflexivity.
+      - rewrite (N.max_r 1 l Hl1). reflexivity. }
+    rewrite Hgen, fold_left_app. clear Hgen.
     destruct (is_eol w) eqn:Ew; cbn [negb].
-    + apply andb_true_iff in Hc. destruct Hc as [Hc Hc3].
-      apply andb_true_iff in Hc. destruct Hc as [Hc1 Hc2].
-      destruct r as [|t r'].
+    + destruct r as [|t r'].
       * (* a single EOL token is written as "\n" *)
         destruct w as [|c [|c' w']]; try discriminate. cbn [is_eol] in Ew. apply N.eqb_eq in Ew. subst c.
-        cbn [normalize_out fold_left filter map rev].
-        pose proof (hold_nl _ _ _ _ Hold_init (Forall_nil _) Hc1 eq_refl) as H1.
-        destruct (hold_finish _ _ _ _ H1 (Forall_nil _) Hc1) as [R1 R2]. split; assumption.
-      * rewrite Hgen by (left; discriminate). rewrite Ew. cbn [app].
-        destruct (write_rest_run (t :: r') true 1 [] [] init_state Hold_init (Forall_nil _)) as [R1 R2].
-        { split; [exact Hc1|]. split; [reflexivity|exact Hc3]. }
-        split; [|exact R2]. rewrite R1. cbn [emit rev map app]. rewrite app_nil_r. reflexivity.
-    + apply andb_true_iff in Hc. destruct Hc as [Hw Hc]. apply N.eqb_eq in Hl. subst l.
-      rewrite Hgen by (right; exact Ew). rewrite Ew, fold_left_app.
-      pose proof (hold_feed_first _ _ _ w Hold_init Hw) as H1.
-      destruct (write_rest_run r false 1 [w] [] _ H1 (Forall_cons _ Hw (Forall_nil _))) as [R1 R2].
-      { split; [discriminate|exact Hc]. }
-      split; [|exact R2]. rewrite R1. cbn [emit rev map app]. unfold normtok at 2. cbn [fst snd].
+        cbn [write_rest app fold_left filter map rev].
+        pose proof (hold_nl _ _ _ _ H0 (Forall_nil _) ign_ok_nil eq_refl) as H1.
+        destruct (hold_finish _ _ _ _ H1 (Forall_nil _) ign_ok_nil) as [R1 R2]. split; assumption.
+      * cbn [app].
+        destruct (write_rest_run (t :: r') l [] [] _ H0 (Forall_nil _) Hc0) as [R1 R2].
+        split; [|exact R2]. etransitivity; [exact R1|]. cbn [emit rev map app]. rewrite app_nil_r. reflexivity.
+    + apply andb_true_iff in Hc0. destruct Hc0 as [Hw Hc0]. rewrite fold_left_app.
+      pose proof (hold_feed_first _ _ _ w H0 Hw) as H1.
+      destruct (write_rest_run r l [w] [] _ H1 (Forall_cons _ Hw (Forall_nil _)) Hc0) as [R1 R2].
+      split; [|exact R2]. etransitivity; [exact R1|]. cbn [emit rev map app]. unfold normtok at 2. cbn [fst snd].
       rewrite app_nil_r. reflexivity.
 Qed.
+
+(* ================================================================== *)
+(* 4. Part B: the two modes on the same input                          *)
+(* ================================================================== *)
+
+Definition lowfix (c : rune) : Prop := to_lower T c = c.
+
+(* the word buffers (reversed) of the two runs: same runes, except that the
+   first rune of the word keeps its case in raw mode *)
+Inductive Orel : list rune -> list rune -> Prop :=
+| Orel_nil : Orel [] []
+| Orel_cons X c : Forall lowfix X -> Orel (X ++ [c]) (X ++ [to_lower T c]).
+
+Definition Wrel (wr wn : word) : Prop :=
+  exists c Z, wr = c :: Z /\ wn = to_lower T c :: Z /\ Forall lowfix Z.
+
+(* exception (c), at its source: the first rune is changed by ToLower and the
+   lower-cased word starts with "https" ("Https://..", "HTTPS") *)
+Definition cap_https (o : list rune) : bool :=
+  match o with
+  | c :: Y => negb (N.eqb (to_lower T c) c) &&
+              match prefix_rest HTTPS (to_lower T c :: Y) with Some _ => true | None => false end
+  | [] => false
+  end.
+(* html.UnescapeString leaves the word alone, as written and with its first
+   rune lower-cased (true of every word without '&': [tk_unescape]) *)
+Definition lowerfirst (o : list rune) : list rune :=
+  match o with c :: Y => to_lower T c :: Y | [] => [] end.
+Definition unesc_fix (o : list rune) : bool := word_eqb (unescape T o) o.
+(* a raw-mode word buffer that may be flushed *)
+Definition word_flush_ok (o : list rune) : bool :=
+  unesc_fix o && unesc_fix (lowerfirst o) && negb (cap_https o).
+Definition flush_ok (ob_rev : list rune) : bool :=
+  match ob_rev with [] => true | _ => word_flush_ok (rev ob_rev) end.
+(* the raw-mode run flushes only good word buffers.  A newline met with a
+   hyphen at the end of the buffer, and a space while a line break is
+   deferred, do not flush. *)
+Definition step_ok (s : tstate) (r : rune) : bool :=
+  if N.eqb r 10 then hd_hyphen (obuf_rev s) || flush_ok (obuf_rev s)
+  else if is_space T r then dEOL s || flush_ok (obuf_rev s) else true.
+Fixpoint flushes_ok (s : tstate) (rs : list rune) : bool :=
+  match rs with
+  | [] => flush_ok (obuf_rev s)
+  | r :: rs' => step_ok s r && flushes_ok (step T false s r) rs'
+  end.
+
+Lemma lowfix_lower c : lowfix (to_lower T c).
+Proof. apply (tk_lower_idem T TK). Qed.
+
+Lemma map_lowfix l : Forall lowfix l -> map (to_lower T) l = l.
+Proof. induction 1 as [|c l Hc _ IH]; [reflexivity|]. cbn [map]. rewrite Hc, IH. reflexivity. Qed.
+
+Lemma Forall_filter {A} (P : A -> Prop) f l : Forall P l -> Forall P (filter f l).
+Proof.
+  induction 1 as [|x l Hx _ IH]; [constructor|]. cbn [filter]. destruct (f x); [constructor|]; assumption.
+Qed.
+
+Lemma lowfix_replace Y : Forall lowfix Y -> forall k, Forall lowfix (replace_https_aux Y k).
+Proof.
+  destruct (tk_lower_http T TK) as (Hh & Ht & Hp).
+  induction 1 as [|c Y Hc HY IH]; intros k; [constructor|].
+  destruct k as [|k]; [|rewrite replace_consS; apply IH].
+  rewrite replace_cons0. destruct (prefix_rest HTTPS (c :: Y)).
+  - unfold HTTP. cbn [app]. repeat (constructor; [assumption|]). apply IH.
+  - constructor; [exact Hc|apply IH].
+Qed.
+
+Lemma lower_eqb c k : In k [10; 38; 41; 45; 46; 58] -> N.eqb (to_lower T c) k = N.eqb c k.
+Proof.
+  intro Hk. pose proof (tk_lower_mark T TK c k Hk) as [H1 H2].
+  destruct (N.eqb_spec (to_lower T c) k) as [E|E]; destruct (N.eqb_spec c k) as [E'|E'];
+    try reflexivity; exfalso; auto.
+Qed.
+
+Lemma prefix_https_hd c Y r : prefix_rest HTTPS (c :: Y) = Some r -> c = 104.
+Proof.
+  unfold HTTPS. cbn [prefix_rest]. destruct (N.eqb_spec 104 c) as [E|E]; [intros _; symmetry; exact E|discriminate].
+Qed.
+
+Lemma word_eqb_eq a : forall b, word_eqb a b = true -> a = b.
+Proof.
+  induction a as [|x a IH]; intros [|y b] H; try discriminate; [reflexivity|].
+  cbn [word_eqb] in H. apply andb_true_iff in H. destruct H as [H1 H2].
+  apply N.eqb_eq in H1. subst y. f_equal. apply IH, H2.
+Qed.
+
+Lemma word_eqb_refl a : word_eqb a a = true.
+Proof. induction a as [|x a IH]; [reflexivity|]. cbn [word_eqb]. rewrite N.eqb_refl, IH. reflexivity. Qed.
+
+Lemma no_amp_unesc_fix o : existsb (N.eqb 38) o = false -> unesc_fix o = true.
+Proof. intro H. unfold unesc_fix. rewrite (tk_unescape T TK o H). apply word_eqb_refl. Qed.
+
+Lemma flush_rel X c :
+  Forall lowfix X -> flush_ok (X ++ [c]) = true ->
+  Wrel (flush_buf T (X ++ [c])) (flush_buf T (X ++ [to_lower T c])).
+Proof.
+  intros HX Hok.
+  assert (Hok' : word_flush_ok (rev (X ++ [c])) = true) by (destruct X; exact Hok).
+  clear Hok. rename Hok' into Hok. unfold word_flush_ok in Hok. rewrite rev_unit in Hok.
+  apply andb_true_iff in Hok. destruct Hok as [Ha Hc]. apply andb_true_iff in Ha. destruct Ha as [Ha Ha'].
+  apply negb_true_iff in Hc. apply word_eqb_eq in Ha, Ha'. cbn [lowerfirst] in Ha'.
+  unfold flush_buf. rewrite !rev_unit.
+  assert (HY : Forall lowfix (rev X)) by (apply Forall_rev; exact HX).
+  set (Y := rev X) in *.
+  rewrite Ha, Ha'.
+  unfold normalize_token. rewrite !replace_cons0.
+  destruct (tk_lower_http T TK) as (Hh & Ht & Hp).
+  destruct (N.eqb_spec (to_lower T c) c) as [Efix|Ene].
+  - rewrite Efix. destruct (prefix_rest HTTPS (c :: Y)) as [rest|] eqn:E.
+    + exists 104, (116 :: 116 :: 112 :: replace_https_aux Y 4). rewrite Hh.
+      repeat split. repeat (constructor; [assumption|]). apply lowfix_replace, HY.
+    + exists c, (replace_https_aux Y 0). rewrite Efix. repeat split. apply lowfix_replace, HY.
+  - assert (Eb : N.eqb (to_lower T c) c = false) by (apply N.eqb_neq; exact Ene).
+    unfold cap_https in Hc. rewrite ?Eb in Hc. cbn [negb andb] in Hc.
+    destruct (prefix_rest HTTPS (to_lower T c :: Y)) as [rest|] eqn:E;
+      [try rewrite E in Hc; discriminate Hc|].
+    destruct (prefix_rest HTTPS (c :: Y)) as [rest|] eqn:E'.
+    + exfalso. apply prefix_https_hd in E'. subst c. apply Ene. exact Hh.
+    + exists c, (replace_https_aux Y 0). repeat split. apply lowfix_replace, HY.
+Qed.
+
+Lemma header_rel wr wn : Wrel wr wn -> header T wn = header T wr.
+Proof.
+  intros (c & Z & -> & -> & HZ). unfold header. cbn [rev].
+  destruct (rev Z) as [|e p]; cbn [app].
+  - change DOT with 46.
+    rewrite (lower_eqb c 46), (lower_eqb c 58), (lower_eqb c 41) by (cbn; tauto).
+    destruct ((c =? 46) || (c =? 58) || (c =? 41)); [|reflexivity].
+    cbn [rev map forallb]. destruct (is_list_marker T [] && negb (c =? 41)); reflexivity.
+  - destruct ((e =? DOT) || (e =? 58) || (e =? 41)); [|reflexivity].
+    rewrite !rev_unit. cbn [map]. rewrite (tk_lower_idem T TK).
+    rewrite !forallb_app. cbn [forallb]. change DOT with 46.
+    rewrite (tk_lower_digit T TK), (lower_eqb c 46) by (cbn; tauto). reflexivity.
+Qed.
+
+Lemma strip_snoc l c :
+  strip_trailing_dots_rev (l ++ [c]) = [] \/ exists X, strip_trailing_dots_rev (l ++ [c]) = X ++ [c].
+Proof.
+  induction l as [|x l IH]; cbn [app strip_trailing_dots_rev].
+  - destruct (c =? DOT); [left; reflexivity|right; exists []; reflexivity].
+  - destruct (x =? DOT); [exact IH|]. right. exists (x :: l). reflexivity.
+Qed.
+
+Lemma letter_not_nl c : is_letter T c = true -> c <> 10.
+Proof. intro H. apply (tk_letter_ok T TK), wchar_ok_inv in H. tauto. Qed.
+Lemma digit_not_nl c : is_digit T c = true -> c <> 10.
+Proof. intro H. apply (tk_digit_ok T TK), wchar_ok_inv in H. tauto. Qed.
+
+Lemma is_eol_cons_false c l : c <> 10 -> is_eol (c :: l) = false.
+Proof. intro H. cbn [is_eol]. destruct l; [apply N.eqb_neq, H|reflexivity]. Qed.
+
+(* the heart of Part B: one flushed word, cleaned in both modes *)
+Lemma cleanup_rel first wr wn :
+  Wrel wr wn ->
+  (cleanup_token T first wr false = [] /\ cleanup_token T first wn true = []) \/
+  (cleanup_token T first wr false <> [] /\ is_eol (cleanup_token T first wr false) = false /\
+   cleanup_token T first wn true = norm_word T (cleanup_token T first wr false)).
+Proof.
+  intro HR. pose proof (header_rel wr wn HR) as Hhd.
+  destruct HR as (c & Z & -> & -> & HZ). unfold cleanup_token. rewrite Hhd.
+  destruct (first && header T (c :: Z)); [left; split; reflexivity|].
+  rewrite (tk_lower_letter T TK), (tk_lower_digit T TK).
+  destruct (negb (is_letter T c) && is_digit T c) eqn:Hn.
+  - apply andb_true_iff in Hn. destruct Hn as [Hnl Hd]. rewrite (tk_digit_fix T TK c Hd).
+    cbn [filter]. rewrite Hd. cbn [orb rev].
+    destruct (strip_snoc (rev (filter (fun c0 => is_digit T c0 || (c0 =? DOT) || (c0 =? HYPHEN)) Z)) c)
+      as [E|[X E]]; rewrite E.
+    + left. split; reflexivity.
+    + right. rewrite rev_unit. split; [discriminate|]. split.
+      * apply is_eol_cons_false, digit_not_nl, Hd.
+      * unfold norm_word. cbn [first_is_number]. rewrite Hnl, Hd. reflexivity.
+  - cbn [filter]. rewrite (tk_lower_letter T TK).
+    assert (HF : Forall lowfix (filter (is_letter T) Z)) by (apply Forall_filter, HZ).
+    assert (HL : Forall (fun x => is_letter T x = true) (filter (is_letter T) Z)).
+    { apply Forall_forall. intros x Hx. apply filter_In in Hx. tauto. }
+    set (F := filter (is_letter T) Z) in *.
+    destruct (is_letter T c) eqn:Hl.
+    + right. split; [discriminate|]. split; [apply is_eol_cons_false, letter_not_nl, Hl|].
+      unfold norm_word. cbn [first_is_number]. rewrite Hl. cbn [negb andb].
+      unfold lw. cbn [map]. rewrite (map_lowfix F HF). reflexivity.
+    + destruct F as [|f F'].
+      * left. split; [reflexivity|]. rewrite (tk_ichg_nil T TK). reflexivity.
+      * right. inversion HL as [|? ? Hf _]; subst. split; [discriminate|].
+        split; [apply is_eol_cons_false, letter_not_nl, Hf|].
+        unfold norm_word. cbn [first_is_number]. rewrite Hf. cbn [negb andb].
+        unfold lw. rewrite (map_lowfix _ HF). reflexivity.
+Qed.
+
+Lemma clean_go_rel ws1 ws2 :
+  Forall2 Wrel ws1 ws2 -> forall first,
+  clean_go T true first ws2 = map (norm_word T) (clean_go T false first ws1) /\
+  Forall (fun w => is_eol w = false) (clean_go T false first ws1).
+Proof.
+  induction 1 as [|w1 w2 r1 r2 Hw _ IH]; intros first; [split; [reflexivity|constructor]|].
+  cbn [clean_go]. destruct (IH false) as [IH1 IH2].
+  destruct (cleanup_rel first w1 w2 Hw) as [[E1 E2]|(N1 & N2 & E2)].
+  - rewrite E1, E2. split; assumption.
+  - rewrite E2. destruct (cleanup_token T first w1 false) as [|a l] eqn:E1; [congruence|].
+    assert (Hne : norm_word T (a :: l) <> []).
+    { unfold norm_word. destruct (first_is_number T (a :: l)); [discriminate|].
+      apply ichg_nonempty. discriminate. }
+    destruct (norm_word T (a :: l)) eqn:E3; [congruence|].
+    cbn [map]. rewrite IH1, E3. split; [reflexivity|]. constructor; assumption.
+Qed.
+
+Lemma Forall2_rev {A B} (R : A -> B -> Prop) l1 l2 : Forall2 R l1 l2 -> Forall2 R (rev l1) (rev l2).
+Proof.
+  induction 1 as [|a b l1 l2 Hab _ IH]; [constructor|]. cbn [rev].
+  apply Forall2_app; [exact IH|]. constructor; [exact Hab|constructor].
+Qed.
+
+Lemma filter_rev {A} (f : A -> bool) l : filter f (rev l) = rev (filter f l).
+Proof.
+  induction l as [|x l IH]; [reflexivity|]. cbn [rev filter]. rewrite filter_app, IH. cbn [filter].
+  destruct (f x); [reflexivity|]. cbn [rev]. rewrite app_nil_r. reflexivity.
+Qed.
+
+(* ---------- the ignorable-notice decision is the same in both modes ---------- *)
+
+(* two runes at the same position of the texts the expressions see *)
+Definition Crel (c1 c2 : rune) : Prop := c2 = c1 \/ c2 = to_lower T c1.
+
+Lemma Crel_refl c : Crel c c.
+Proof. left. reflexivity. Qed.
+
+Lemma Crel_list_refl l : Forall2 Crel l l.
+Proof. induction l; constructor; [apply Crel_refl|assumption]. Qed.
+
+Lemma Crel_ci p c1 c2 : In p pat_runes -> Crel c1 c2 -> ci_eq p c2 = ci_eq p c1.
+Proof. intros Hp [->| ->]; [reflexivity|apply (tk_lower_ci T TK), Hp]. Qed.
+Lemma Crel_adigit c1 c2 : Crel c1 c2 -> ascii_digit c2 = ascii_digit c1.
+Proof. intros [->| ->]; [reflexivity|apply (tk_lower_adigit T TK)]. Qed.
+Lemma Crel_az c1 c2 : Crel c1 c2 -> ci_az c2 = ci_az c1.
+Proof. intros [->| ->]; [reflexivity|apply (tk_lower_az T TK)]. Qed.
+Lemma Crel_eqb k c1 c2 : In k [10; 38; 41; 45; 46; 58] -> Crel c1 c2 -> N.eqb c2 k = N.eqb c1 k.
+Proof. intros Hk [->| ->]; [reflexivity|apply lower_eqb, Hk]. Qed.
+
+Definition opt_rel (o1 o2 : option (list rune)) : Prop :=
+  match o1, o2 with
+  | Some r1, Some r2 => Forall2 Crel r1 r2
+  | None, None => True
+  | _, _ => False
+  end.
+
+Lemma ci_prefix_rel pat : (forall p, In p pat -> In p pat_runes) ->
+  forall l1 l2, Forall2 Crel l1 l2 -> opt_rel (ci_prefix_rest pat l1) (ci_prefix_rest pat l2).
+Proof.
+  induction pat as [|p pat IH]; intros Hp l1 l2 HL; [exact HL|].
+  destruct HL as [|c1 c2 l1 l2 Hc HL]; [exact I|]. cbn [ci_prefix_rest].
+  rewrite (Crel_ci p c1 c2 (Hp p (or_introl eq_refl)) Hc).
+  destruct (ci_eq p c1); [|exact I]. apply IH; [|exact HL].
+  intros q Hq. apply Hp. right. exact Hq.
+Qed.
+
+Lemma digits_rel n : forall l1 l2, Forall2 Crel l1 l2 -> opt_rel (digits_rest n l1) (digits_rest n l2).
+Proof.
+  induction n as [|n IH]; intros l1 l2 HL; [exact HL|].
+  destruct HL as [|c1 c2 l1 l2 Hc HL]; [exact I|].
+  change (digits_rest (S n) (c1 :: l1)) with (if ascii_digit c1 then digits_rest n l1 else None).
+  change (digits_rest (S n) (c2 :: l2)) with (if ascii_digit c2 then digits_rest n l2 else None).
+  rewrite (Crel_adigit c1 c2 Hc). destruct (ascii_digit c1); [|exact I]. apply IH, HL.
+Qed.
+
+Lemma no_nl_rel l1 l2 : Forall2 Crel l1 l2 -> no_nl l1 = no_nl l2.
+Proof.
+  unfold no_nl. change NLr with 10. induction 1 as [|c1 c2 l1 l2 Hc _ IH]; [reflexivity|]. cbn [forallb].
+  rewrite (Crel_eqb 10 c1 c2) by (cbn; tauto || exact Hc). rewrite IH. reflexivity.
+Qed.
+
+Definition pat_ok (pat : list rune) : bool := forallb (fun p => existsb (N.eqb p) pat_runes) pat.
+Lemma pat_ok_incl pat : pat_ok pat = true -> forall p, In p pat -> In p pat_runes.
+Proof.
+  unfold pat_ok. rewrite forallb_forall. intros H p Hp. apply H in Hp.
+  apply existsb_exists in Hp. destruct Hp as (q & Hq & E). apply N.eqb_eq in E. subst q. exact Hq.
+Qed.
+
+Lemma year_tail_rel l1 l2 : Forall2 Crel l1 l2 -> year_tail l1 = year_tail l2.
+Proof.
+  intro HL. unfold year_tail.
+  pose proof (ci_prefix_rel YYYY (pat_ok_incl YYYY eq_refl) l1 l2 HL) as H1.
+  destruct (ci_prefix_rest YYYY l1), (ci_prefix_rest YYYY l2); cbn [opt_rel] in H1; try contradiction.
+  - apply no_nl_rel, H1.
+  - pose proof (digits_rel 4 l1 l2 HL) as H2.
+    destruct (digits_rest 4 l1), (digits_rest 4 l2); cbn [opt_rel] in H2; try contradiction.
+    + apply no_nl_rel, H2.
+    + reflexivity.
+Qed.
+
+Lemma re1_rel l1 l2 : Forall2 Crel l1 l2 -> re1_body l1 = re1_body l2.
+Proof.
+  intro HL. unfold re1_body.
+  pose proof (ci_prefix_rel COPYRIGHT_SP (pat_ok_incl COPYRIGHT_SP eq_refl) l1 l2 HL) as H1.
+  destruct (ci_prefix_rest COPYRIGHT_SP l1) as [r1|], (ci_prefix_rest COPYRIGHT_SP l2) as [r2|];
+    cbn [opt_rel] in H1; try contradiction; [|reflexivity].
+  rewrite (year_tail_rel r1 r2 H1). f_equal.
+  pose proof (ci_prefix_rel PAREN_C_SP (pat_ok_incl PAREN_C_SP eq_refl) r1 r2 H1) as H2.
+  destruct (ci_prefix_rest PAREN_C_SP r1), (ci_prefix_rest PAREN_C_SP r2);
+    cbn [opt_rel] in H2; try contradiction; [|reflexivity].
+  apply year_tail_rel, H2.
+Qed.
+
+Lemma re2_rel l1 l2 : Forall2 Crel l1 l2 -> re2_body l1 = re2_body l2.
+Proof.
+  intro HL. unfold re2_body.
+  pose proof (ci_prefix_rel DATES_FIRST_PUB (pat_ok_incl DATES_FIRST_PUB eq_refl) l1 l2 HL) as H1.
+  destruct (ci_prefix_rest DATES_FIRST_PUB l1), (ci_prefix_rest DATES_FIRST_PUB l2);
+    cbn [opt_rel] in H1; try contradiction; [|reflexivity].
+  apply no_nl_rel, H1.
+Qed.
+
+Lemma with_prefix_rel body :
+  (forall l1 l2, Forall2 Crel l1 l2 -> body l1 = body l2) ->
+  forall k l1 l2, Forall2 Crel l1 l2 -> with_prefix body k l1 = with_prefix body k l2.
+Proof.
+  intros Hb. induction k as [|k IH]; intros l1 l2 HL; cbn [with_prefix]; rewrite (Hb l1 l2 HL); [reflexivity|].
+  f_equal. destruct HL as [|c1 c2 l1 l2 Hc HL]; [reflexivity|].
+  change NLr with 10. rewrite (Crel_eqb 10 c1 c2) by (cbn; tauto || exact Hc).
+  rewrite (IH l1 l2 HL). reflexivity.
+Qed.
+
+(* the date expression, staged *)
+Definition re3_mid (r : list rune) : option (list rune) :=
+  match digits_rest 2 r with
+  | Some r' => Some r'
+  | None => match r with
+            | a :: b :: c :: r' => if ci_az a && ci_az b && ci_az c then Some r' else None
+            | _ => None
+            end
+  end.
+Definition re3_end (o : option (list rune)) : bool :=
+  match o with
+  | Some (h2 :: r2) => if N.eqb h2 HYPHEN
+                       then match digits_rest 2 r2 with Some [] => true | _ => false end
+                       else false
+  | _ => false
+  end.
+Lemma re3_staged l :
+  re3 l = match digits_rest 4 l with
+          | Some (h :: r) => if N.eqb h HYPHEN then re3_end (re3_mid r) else false
+          | _ => false
+          end.
+Proof. reflexivity. Qed.
+
+Lemma re3_mid_rel r1 r2 : Forall2 Crel r1 r2 -> opt_rel (re3_mid r1) (re3_mid r2).
+Proof.
+  intro HL. unfold re3_mid. pose proof (digits_rel 2 r1 r2 HL) as H1.
+  destruct (digits_rest 2 r1), (digits_rest 2 r2); cbn [opt_rel] in H1; try contradiction; [exact H1|].
+  destruct HL as [|a1 a2 ? ? Ha HL]; [exact I|].
+  destruct HL as [|b1 b2 ? ? Hb HL]; [exact I|].
+  destruct HL as [|c1 c2 ? ? Hc HL]; [exact I|].
+  rewrite (Crel_az _ _ Ha), (Crel_az _ _ Hb), (Crel_az _ _ Hc).
+  destruct (ci_az a1 && ci_az b1 && ci_az c1); [exact HL|exact I].
+Qed.
+
+Lemma re3_end_rel o1 o2 : opt_rel o1 o2 -> re3_end o1 = re3_end o2.
+Proof.
+  unfold re3_end. destruct o1 as [r1|], o2 as [r2|]; cbn [opt_rel]; try contradiction; [|reflexivity].
+  intros [|h1 h2 ? ? Hh HL]; [reflexivity|].
+  change HYPHEN with 45. rewrite (Crel_eqb 45 h1 h2) by (cbn; tauto || exact Hh).
+  destruct (h1 =? 45); [|reflexivity].
+  pose proof (digits_rel 2 _ _ HL) as H1.
+  destruct (digits_rest 2 l) as [x|], (digits_rest 2 l') as [y|]; cbn [opt_rel] in H1; try contradiction;
+    [|reflexivity].
+  destruct H1; reflexivity.
+Qed.
+
+Lemma re3_rel l1 l2 : Forall2 Crel l1 l2 -> re3 l1 = re3 l2.
+Proof.
+  intro HL. rewrite !re3_staged. pose proof (digits_rel 4 l1 l2 HL) as H1.
+  destruct (digits_rest 4 l1) as [r1|], (digits_rest 4 l2) as [r2|]; cbn [opt_rel] in H1;
+    try contradiction; [|reflexivity].
+  destruct H1 as [|h1 h2 r1 r2 Hh HR]; [reflexivity|].
+  change HYPHEN with 45. rewrite (Crel_eqb 45 h1 h2) by (cbn; tauto || exact Hh).
+  destruct (h1 =? 45); [|reflexivity]. apply re3_end_rel, re3_mid_rel, HR.
+Qed.
+
+Lemma ignorable_rel l1 l2 : Forall2 Crel l1 l2 -> ignorable l1 = ignorable l2.
+Proof.
+  intro HL. unfold ignorable.
+  rewrite (with_prefix_rel re1_body re1_rel 5 l1 l2 HL), (with_prefix_rel re2_body re2_rel 5 l1 l2 HL),
+    (re3_rel l1 l2 HL). reflexivity.
+Qed.
+
+Lemma Wrel_Crel w1 w2 : Wrel w1 w2 -> Forall2 Crel w1 w2.
+Proof.
+  intros (c & Z & -> & -> & _). constructor; [right; reflexivity|apply Crel_list_refl].
+Qed.
+
+Lemma stringify_rel ws1 ws2 : Forall2 Wrel ws1 ws2 -> Forall2 Crel (stringify ws1) (stringify ws2).
+Proof.
+  induction 1 as [|w1 w2 r1 r2 Hw Hr IH]; [constructor|].
+  pose proof (Wrel_Crel _ _ Hw) as Hc.
+  destruct Hr as [|w1' w2' r1' r2' Hw' Hr'].
+  - exact Hc.
+  - change (stringify (w1 :: w1' :: r1')) with
+        (match w1 with [] => stringify (w1' :: r1') | _ => w1 ++ [32] ++ stringify (w1' :: r1') end).
+    change (stringify (w2 :: w2' :: r2')) with
+        (match w2 with [] => stringify (w2' :: r2') | _ => w2 ++ [32] ++ stringify (w2' :: r2') end).
+    destruct Hw as (c & Z & -> & -> & _).
+    apply Forall2_app; [exact Hc|]. apply Forall2_app; [apply Crel_list_refl|exact IH].
+Qed.
+
+(* one line handed to appendToDoc in both modes *)
+Lemma line_rel L lb1 lb2 :
+  Forall2 Wrel lb1 lb2 ->
+  line_toks T true L lb2 = map (normtok T) (filter non_eol (line_toks T false L lb1)) /\
+  line_ms T true L lb2 = line_ms T false L lb1.
+Proof.
+  intros HR. unfold line_toks, line_ms in *.
+  destruct HR as [|w1 w2 r1 r2 Hw Hr]; [split; reflexivity|].
+  pose proof (Forall2_rev _ _ _ (Forall2_cons _ _ Hw Hr)) as HR'.
+  unfold stringify_line_buf in *.
+  rewrite <- (ignorable_rel _ _ (stringify_rel _ _ HR')).
+  destruct (ignorable (stringify (rev (w1 :: r1)))); [split; reflexivity|].
+  split; [|reflexivity].
+  rewrite !clean_line_go. destruct (clean_go_rel _ _ HR' true) as [E HE]. rewrite E.
+  rewrite filter_all.
+  - rewrite (map_rev (normtok T)), !map_map. reflexivity.
+  - apply Forall_rev. apply Forall_map. eapply Forall_impl; [|exact HE].
+    cbv beta. intros a Ha. unfold non_eol. cbn [fst]. rewrite Ha. reflexivity.
+Qed.
+
+Record Sim (s1 s2 : tstate) : Prop := {
+  sim_e : dEOL s1 = dEOL s2;
+  sim_w : dWord s1 = dWord s2;
+  sim_line : line s1 = line s2;
+  sim_ob : Orel (obuf_rev s1) (obuf_rev s2);
+  sim_lb : Forall2 Wrel (linebuf_rev s1) (linebuf_rev s2);
+  sim_toks : toks_rev s2 = map (normtok T) (filter non_eol (toks_rev s1));
+  sim_ms : matches_rev s2 = matches_rev s1 }.
+
+Lemma Sim_init : Sim init_state init_state.
+Proof. constructor; try reflexivity; constructor. Qed.
+
+Lemma orel_hyphen o1 o2 : Orel o1 o2 -> hd_hyphen o2 = hd_hyphen o1.
+Proof.
+  intros [|X c HX]; [reflexivity|]. destruct X as [|x X']; cbn [app hd_hyphen]; [|reflexivity].
+  apply lower_eqb. cbn. tauto.
+Qed.
+
+Lemma orel_tl o1 o2 : Orel o1 o2 -> Orel (tl o1) (tl o2).
+Proof.
+  intros [|X c HX]; [constructor|]. destruct X as [|x X']; cbn [app tl]; [constructor|].
+  inversion HX; subst. constructor. assumption.
+Qed.
+
+Lemma curlb_rel s1 s2 :
+  Orel (obuf_rev s1) (obuf_rev s2) -> flush_ok (obuf_rev s1) = true ->
+  Forall2 Wrel (linebuf_rev s1) (linebuf_rev s2) ->
+  Forall2 Wrel (cur_lb T s1) (cur_lb T s2).
+Proof.
+  intros HO Hok HL. unfold cur_lb. inversion HO as [E1 E2|X c HX E1 E2].
+  - exact HL.
+  - rewrite <- E1 in Hok.
+    destruct (X ++ [c]) as [|a l] eqn:Ea; [destruct X; discriminate|].
+    destruct (X ++ [to_lower T c]) as [|a' l'] eqn:Ea'; [destruct X; discriminate|].
+    constructor; [|exact HL]. rewrite <- Ea, <- Ea'. apply flush_rel; [exact HX|].
+    rewrite Ea. exact Hok.
+Qed.
+
+Lemma sim_step s1 s2 r :
+  Sim s1 s2 -> step_ok s1 r = true -> Sim (step T false s1 r) (step T true s2 r).
+Proof.
+  intros [E W HLn HO HL HT HM] Hok. unfold step_ok in Hok.
+  destruct (N.eqb_spec r 10) as [->|Hr].
+  - destruct (hd_hyphen (obuf_rev s1)) eqn:Hh.
+    + (* hyphen before the line break: deferral, in both runs *)
+      pose proof (orel_hyphen _ _ HO) as Hh2. rewrite Hh in Hh2.
+      rewrite (step_nl_hyph T false s1 Hh), (step_nl_hyph T true s2 Hh2).
+      constructor; fields; try assumption; try reflexivity. apply orel_tl, HO.
+    + cbn [orb] in Hok.
+      pose proof (orel_hyphen _ _ HO) as Hh2. rewrite Hh in Hh2.
+      destruct (step_nl_proj T false s1 Hh) as (P1 & P2 & P3 & P4 & P5 & P6 & P7).
+      destruct (step_nl_proj T true s2 Hh2) as (Q1 & Q2 & Q3 & Q4 & Q5 & Q6 & Q7).
+      destruct (line_rel (line s1) _ _ (curlb_rel s1 s2 HO Hok HL)) as [LR1 LR2].
+      constructor; try congruence.
+      * rewrite P1, Q1. constructor.
+      * rewrite P2, Q2. constructor.
+      * rewrite P6, Q6. cbn [app filter]. unfold non_eol at 1. cbn [fst is_eol N.eqb Pos.eqb negb].
+        rewrite filter_app, map_app, <- HT, <- HLn, LR1. reflexivity.
+  - destruct (obuf_rev s1) as [|a1 o1] eqn:Eo1.
+    + inversion HO as [E0 Eo2|X c HX E0 Eo2]; [|destruct X; discriminate].
+      symmetry in Eo2.
+      rewrite (step_start T false s1 r Hr Eo1), (step_start T true s2 r Hr Eo2).
+      destruct (starts_word T r).
+      * constructor; fields; try assumption. apply (Orel_cons [] r). constructor.
+      * constructor; try assumption. rewrite Eo1, Eo2. constructor.
+    + assert (N1 : obuf_rev s1 <> []) by (rewrite Eo1; discriminate).
+      assert (N2 : obuf_rev s2 <> []).
+      { inversion HO as [E0 Eo2|X c HX E0 Eo2]; destruct X; discriminate. }
+      rewrite <- Eo1 in HO, Hok.
+      destruct (is_space T r) eqn:Hsp.
+      * destruct (dEOL s1) eqn:He1.
+        -- (* spaces after a deferred line break are skipped *)
+           rewrite (step_space_deol T false s1 r Hr N1 Hsp He1).
+           rewrite (step_space_deol T true s2 r Hr N2 Hsp (eq_sym E)).
+           constructor; try assumption. congruence.
+        -- cbn [orb] in Hok. symmetry in E.
+           destruct (dWord s1) eqn:Hw1; symmetry in W.
+           ++ (* the joined word is flushed: its line ends here *)
+              destruct (step_space_dword T false s1 r Hr N1 Hsp He1 Hw1) as (P1 & P2 & P3 & P4 & P5 & P6 & P7).
+              destruct (step_space_dword T true s2 r Hr N2 Hsp E W) as (Q1 & Q2 & Q3 & Q4 & Q5 & Q6 & Q7).
+              destruct (line_rel (line s1) _ _ (curlb_rel s1 s2 HO Hok HL)) as [LR1 LR2].
+              constructor; try congruence.
+              ** rewrite P1, Q1. constructor.
+              ** rewrite P2, Q2. constructor.
+              ** rewrite P6, Q6, filter_app, map_app, <- HT, <- HLn, LR1. reflexivity.
+           ++ destruct (step_space_proj T false s1 r Hr N1 Hsp He1 Hw1) as (P1 & P2 & P3 & P4 & P5 & P6 & P7).
+              destruct (step_space_proj T true s2 r Hr N2 Hsp E W) as (Q1 & Q2 & Q3 & Q4 & Q5 & Q6 & Q7).
+              constructor; try congruence.
+              ** rewrite P1, Q1. constructor.
+              ** rewrite P2, Q2. constructor; [|exact HL].
+                 inversion HO as [E0 Eo2|X c HX E0 Eo2]; [congruence|].
+                 apply flush_rel; [exact HX|]. rewrite E0. exact Hok.
+      * rewrite (step_char_gen T false s1 r Hr N1 Hsp), (step_char_gen T true s2 r Hr N2 Hsp).
+        rewrite <- E.
+        assert (HO' : Orel ((match punct_map T r with
+                             | Some rep => rev (map (to_lower T) rep)
+                             | None => [to_lower T r] end) ++ obuf_rev s1)
+                           ((match punct_map T r with
+                             | Some rep => rev (map (to_lower T) rep)
+                             | None => [to_lower T r] end) ++ obuf_rev s2)).
+        { inversion HO as [E0 Eo2|X c HX E0 Eo2]; [congruence|].
+          rewrite !app_assoc. apply Orel_cons. apply Forall_app. split; [|exact HX].
+          destruct (punct_map T r) as [rep|].
+          - apply Forall_rev. apply Forall_map. apply Forall_forall. intros x _. apply lowfix_lower.
+          - constructor; [apply lowfix_lower|constructor]. }
+        destruct (dEOL s1) eqn:He1; constructor; fields; try assumption; try reflexivity; congruence.
+Qed.
+
+Lemma sim_finish s1 s2 :
+  Sim s1 s2 -> flush_ok (obuf_rev s1) = true ->
+  toks_rev (finish T true s2) = map (normtok T) (filter non_eol (toks_rev (finish T false s1))) /\
+  matches_rev (finish T true s2) = matches_rev (finish T false s1).
+Proof.
+  intros [E W HLn HO HL HT HM] Hok.
+  destruct (finish_proj T false s1) as [P1 P2]. destruct (finish_proj T true s2) as [Q1 Q2].
+  destruct (line_rel (line s1) _ _ (curlb_rel s1 s2 HO Hok HL)) as [LR1 LR2].
+  rewrite P1, P2, Q1, Q2, filter_app, map_app, <- HT, <- HLn, LR1, LR2, HM. split; reflexivity.
+Qed.
+
+Lemma sim_fold rs : forall s1 s2,
+  Sim s1 s2 -> flushes_ok s1 rs = true ->
+  toks_rev (finish T true (fold_left (step T true) rs s2)) =
+  map (normtok T) (filter non_eol (toks_rev (finish T false (fold_left (step T false) rs s1)))) /\
+  matches_rev (finish T true (fold_left (step T true) rs s2)) =
+  matches_rev (finish T false (fold_left (step T false) rs s1)).
+Proof.
+  induction rs as [|r rs IH]; intros s1 s2 HS Hok.
+  - cbn [fold_left flushes_ok] in *. apply sim_finish; assumption.
+  - cbn [fold_left flushes_ok] in *. apply andb_true_iff in Hok. destruct Hok as [Hok1 Hok2].
+    apply IH; [|assumption]. apply sim_step; assumption.
+Qed.
+
+(* Part B *)
+Theorem raw_vs_norm rs :
+  flushes_ok init_state rs = true ->
+  d_toks (tokenize_runes T true rs) =
+  map (normtok T) (filter non_eol (d_toks (tokenize_runes T false rs))) /\
+  d_matches (tokenize_runes T true rs) = d_matches (tokenize_runes T false rs).
+Proof.
+  unfold tokenize_runes, doc_of. cbn [d_toks d_matches]. intros Hok.
+  destruct (sim_fold rs _ _ Sim_init Hok) as [E1 E2].
+  rewrite E1, E2, filter_rev, map_rev. split; reflexivity.
+Qed.
+
+(* ---------- the raw-mode token list is canonical, up to the residual
+              conditions; for EVERY input ---------- *)
+
+Lemma strip_hd l :
+  match strip_trailing_dots_rev l with [] => True | e :: _ => N.eqb e 46 = false end.
+Proof.
+  induction l as [|c l IH]; [exact I|]. cbn [strip_trailing_dots_rev]. change DOT with 46.
+  destruct (c =? 46) eqn:E; [exact IH|exact E].
+Qed.
+
+(* a cleaned raw-mode word is empty (dropped) or has the canonical shape *)
+Lemma cleanup_raw_shape first w :
+  cleanup_token T first w false = [] \/
+  (shape_ok T (cleanup_token T first w false) = true /\ is_eol (cleanup_token T first w false) = false).
+Proof.
+  unfold cleanup_token. destruct (first && header T w); [left; reflexivity|].
+  destruct w as [|c Z]; [left; reflexivity|].
+  destruct (negb (is_letter T c) && is_digit T c) eqn:Hn.
+  - set (f := fun c0 => is_digit T c0 || (c0 =? DOT) || (c0 =? HYPHEN)).
+    assert (Hsub : forall x, In x (strip_trailing_dots_rev (rev (filter f (c :: Z)))) -> nchar T x = true).
+    { intros x Hx. apply TokInv.strip_incl, in_rev, filter_In in Hx. exact (proj2 Hx). }
+    pose proof (strip_hd (rev (filter f (c :: Z)))) as Hhd.
+    apply andb_true_iff in Hn. destruct Hn as [Hnl Hd].
+    assert (Hfc : f c = true) by (unfold f; rewrite Hd; reflexivity).
+    cbn [filter] in *. rewrite Hfc in *. cbn [rev] in *.
+    destruct (strip_snoc (rev (filter f Z)) c) as [E|[X E]]; rewrite E in *.
+    + left. reflexivity.
+    + right. rewrite rev_unit. split; [|apply is_eol_cons_false, digit_not_nl, Hd].
+      unfold shape_ok. apply orb_true_iff. right. unfold number_word.
+      cbn [first_is_number]. rewrite Hnl, Hd. cbn [andb].
+      apply andb_true_iff. split.
+      * apply forallb_forall. intros x Hx. apply Hsub. apply in_rev. rewrite rev_unit. exact Hx.
+      * unfold ends_dot. change (c :: rev X) with ([c] ++ rev X).
+        rewrite rev_app_distr, rev_involutive. cbn [rev app].
+        destruct (X ++ [c]) as [|e l]; [reflexivity|]. rewrite Hhd. reflexivity.
+  - destruct (filter (is_letter T) (c :: Z)) as [|a F] eqn:EF; [left; reflexivity|].
+    right. assert (HL : Forall (fun x => is_letter T x = true) (a :: F)).
+    { rewrite <- EF. apply Forall_forall. intros x Hx. apply filter_In in Hx. tauto. }
+    split.
+    + unfold shape_ok. apply orb_true_iff. left. apply forallb_forall. apply Forall_forall. exact HL.
+    + inversion HL; subst. apply is_eol_cons_false, letter_not_nl. assumption.
+Qed.
+
+Definition tok_good (t : word * N) : Prop := non_eol t = true -> shape_ok T (fst t) = true.
+
+(* every raw-mode word token has the canonical shape *)
+Theorem raw_tok_good rs : Forall tok_good (d_toks (tokenize_runes T false rs)).
+Proof.
+  eapply Forall_impl; [|apply (TokInv.doc_words_emitted T false rs)]. cbv beta.
+  intros [w l] [Hne [(first & w0 & E)|[_ E]]]; cbn [fst] in *; unfold tok_good, non_eol; cbn [fst].
+  - intros _. destruct (cleanup_raw_shape first w0) as [E0|[H1 _]]; [congruence|]. rewrite E. exact H1.
+  - rewrite E. cbn. discriminate.
+Qed.
+
+Lemma mono_snoc a : forall p x,
+  mono p a -> p <= snd x -> Forall (fun t : word * N => snd t <= snd x) a -> mono p (a ++ [x]).
+Proof.
+  induction a as [|[w l] a IH]; intros p [wx lx] Hm Hp Ha; cbn [app mono snd] in *.
+  - split; [exact Hp|exact I].
+  - destruct Hm as [H1 H2]. inversion Ha as [|? ? Hl Ha']; subst. cbn [snd] in Hl.
+    split; [exact H1|]. apply IH; assumption.
+Qed.
+
+Lemma mono_rev l : forall p,
+  Sorted.StronglySorted (fun a b => b <= a) (map snd l) -> Forall (fun x => p <= x) (map snd l) ->
+  mono p (rev l).
+Proof.
+  induction l as [|x l IH]; intros p HS HF; [exact I|].
+  cbn [map rev] in *. apply Sorted.StronglySorted_inv in HS. destruct HS as [HS Hx].
+  inversion HF as [|? ? Hp HF']; subst.
+  apply mono_snoc; [apply IH; assumption|exact Hp|].
+  apply Forall_rev. rewrite Forall_forall in Hx. apply Forall_forall. intros t Ht.
+  apply Hx. apply in_map. exact Ht.
+Qed.
+
+(* the lines of the tokens start at 1 or later and never decrease (from TokInv) *)
+Theorem raw_mono n rs : mono 1 (d_toks (tokenize_runes T n rs)).
+Proof.
+  rewrite TokInv.tokenize_fin. cbn [d_toks doc_of].
+  destruct (TokInv.inv_toks _ _ (TokInv.fin_inv T n rs)) as [HB HS].
+  apply mono_rev; [exact HS|]. eapply Forall_impl; [|exact HB]. cbv beta. intros a Ha. lia.
+Qed.
+
+End WithT.
+
+Lemma canon_split T toks : forall prev line_rev,
+  mono prev toks -> Forall (tok_good T) toks ->
+  canon_go T prev line_rev toks = canon_resid T prev line_rev toks.
+Proof.
+  induction toks as [|[w l] r IH]; intros prev line_rev HM HG; [reflexivity|].
+  cbn [mono canon_go canon_resid] in *. destruct HM as [Hpl HM]. inversion HG as [|? ? Hg HG']; subst.
+  unfold tok_good, non_eol in Hg. cbn [fst] in Hg. unfold word_ok.
+  destruct (N.eqb_spec l prev) as [->|Hne].
+  - destruct (is_eol w) eqn:Ew.
+    + apply IH; assumption.
+    + rewrite (Hg eq_refl), (IH _ (w :: line_rev) HM HG'). reflexivity.
+  - assert (Hlt : N.ltb prev l = true) by (apply N.ltb_lt; lia). rewrite Hlt. cbn [andb].
+    destruct (is_eol w) eqn:Ew.
+    + rewrite (IH _ [] HM HG'). reflexivity.
+    + rewrite (Hg eq_refl), (IH _ [w] HM HG'). reflexivity.
+Qed.
+
+(* ================================================================== *)
+(* 5. The restricted C11                                               *)
+(* ================================================================== *)
+
+Section Final.
+Variable T : tables.
+Hypothesis TK : tables_ok T.
+
+(* hypotheses: the run predicate and the whole of [canon] *)
+Theorem C11_restricted_canon rs :
+  flushes_ok T init_state rs = true ->
+  canon T (d_toks (tokenize_runes T false rs)) = true ->
+  d_toks (tokenize_runes T true (normalize_out (d_toks (tokenize_runes T false rs)))) =
+  d_toks (tokenize_runes T true rs).
+Proof.
+  intros Hok Hc. destruct (retokenize_normalized T TK _ Hc) as [A1 _].
+  destruct (raw_vs_norm T TK rs Hok) as [B1 _]. rewrite A1, B1. reflexivity.
+Qed.
+
+(* hypotheses: the run predicate and the residual conditions only *)
+Theorem C11_restricted rs :
+  flushes_ok T init_state rs = true ->
+  canon_resid T 1 [] (d_toks (tokenize_runes T false rs)) = true ->
+  d_toks (tokenize_runes T true (normalize_out (d_toks (tokenize_runes T false rs)))) =
+  d_toks (tokenize_runes T true rs) /\
+  d_matches (tokenize_runes T true (normalize_out (d_toks (tokenize_runes T false rs)))) = [].
+Proof.
+  intros Hok Hc.
+  assert (Hcanon : canon T (d_toks (tokenize_runes T false rs)) = true).
+  { unfold canon. rewrite (canon_split T _ 1 [] (raw_mono T false rs) (raw_tok_good T TK rs)). exact Hc. }
+  split; [apply C11_restricted_canon; assumption|].
+  apply (retokenize_normalized T TK _ Hcanon).
+Qed.
+
+End Final.
+
+(* ================================================================== *)
+(* 6. The statements in the requested form, non-vacuity, exceptions    *)
+(* ================================================================== *)
+
+Corollary retokenize_normalized_spelled T toks :
+  tables_ok T -> canon T toks = true ->
+  d_toks (tokenize_runes T true (normalize_out toks)) =
+  map (fun '(w, l) => (norm_word T w, l)) (filter (fun t => negb (is_eol (fst t))) toks) /\
+  d_matches (tokenize_runes T true (normalize_out toks)) = [].
+Proof.
+  intros TK Hc. destruct (retokenize_normalized T TK toks Hc) as [H1 H2]. split; [|exact H2].
+  rewrite H1. apply map_ext. intros [w l]. reflexivity.
+Qed.
+
+(* words without '&' that are not a capitalised "Https.." may be flushed *)
+Lemma word_flush_ok_no_amp T o :
+  tables_ok T -> existsb (N.eqb 38) o = false -> cap_https T o = false -> word_flush_ok T o = true.
+Proof.
+  intros TK Ha Hc. unfold word_flush_ok. rewrite Hc, (no_amp_unesc_fix T TK o Ha). cbn [negb andb].
+  rewrite andb_true_r. apply (no_amp_unesc_fix T TK). destruct o as [|c Y]; [reflexivity|].
+  cbn [lowerfirst existsb] in *. apply orb_false_iff in Ha. destruct Ha as [Ha1 Ha2].
+  rewrite Ha2, orb_false_r. rewrite N.eqb_sym, (lower_eqb T TK c 38) by (cbn; tauto).
+  rewrite N.eqb_sym. exact Ha1.
+Qed.
+
+Import String.
+Definition NLs : string := String (Ascii.ascii_of_nat 10) EmptyString.
+
+Definition c11_lhs (T : tables) (rs : list rune) : list (word * N) :=
+  d_toks (tokenize_runes T true (normalize_out (d_toks (tokenize_runes T false rs)))).
+Definition c11_rhs (T : tables) (rs : list rune) : list (word * N) := d_toks (tokenize_runes T true rs).
+Definition c11_hyps (T : tables) (rs : list rune) : bool * bool :=
+  (flushes_ok T init_state rs, canon_resid T 1 [] (d_toks (tokenize_runes T false rs))).
+
+(* non-vacuity: three lines, a Copyright notice line (a pseudo match), upper
+   case, an interchangeable spelling, a number, a hyphenated line break *)
+Definition ex_ok : list rune :=
+  runes_of ("Copyright (c) 2020 Foo Inc." ++ NLs ++ "Permission is HEREBY granted, non-" ++ NLs
+            ++ "exclusive Licence free of charge 2.0" ++ NLs).
+
+Example ex_ok_hyps : c11_hyps TokWF.T1 ex_ok = (true, true).
+Proof. vm_compute. reflexivity. Qed.
+
+Example ex_ok_concl :
+  c11_lhs TokWF.T1 ex_ok = c11_rhs TokWF.T1 ex_ok /\
+  d_matches (tokenize_runes TokWF.T1 true ex_ok) = [1] /\
+  map snd (c11_rhs TokWF.T1 ex_ok) = [2; 2; 2; 2; 2; 3; 3; 3; 3; 3] /\
+  In (runes_of "license", 3) (c11_rhs TokWF.T1 ex_ok) /\
+  In (runes_of "nonexclusive", 2) (c11_rhs TokWF.T1 ex_ok).
+Proof.
+  split.
+  - destruct ex_ok_hyps. apply (C11_restricted TokWF.T1 tables_ok_T1 ex_ok).
+    + vm_compute. reflexivity.
+    + vm_compute. reflexivity.
+  - vm_compute. repeat split; auto 20.
+Qed.
+
+(* the same on T0 (two lines) *)
+Definition ex_ok0 : list rune :=
+  runes_of ("Permission is HEREBY granted," ++ NLs ++ "free of charge 2.0" ++ NLs).
+Example ex_ok0_hyps : c11_hyps TokInv.T0 ex_ok0 = (true, true).
+Proof. vm_compute. reflexivity. Qed.
+Example ex_ok0_concl : c11_lhs TokInv.T0 ex_ok0 = c11_rhs TokInv.T0 ex_ok0.
+Proof.
+  apply (C11_restricted TokInv.T0 tables_ok_T0 ex_ok0); vm_compute; reflexivity.
+Qed.
+
+(* each residual condition is needed: the known exception classes violate
+   exactly that hypothesis and the conclusion fails *)
+Definition differs (T : tables) (rs : list rune) : Prop := c11_lhs T rs <> c11_rhs T rs.
+
+(* (a) a line that only becomes an ignorable notice after cleaning *)
+Example exc_a :
+  let rs := runes_of ("Copyright: 2020, foo" ++ NLs) in
+  c11_hyps TokWF.T1 rs = (true, false) /\ differs TokWF.T1 rs.
+Proof. vm_compute. split; [reflexivity|discriminate]. Qed.
+
+(* (c) a cleaned word containing "https" *)
+Example exc_c :
+  let rs := runes_of "see httpss now" in
+  c11_hyps TokWF.T1 rs = (true, false) /\ differs TokWF.T1 rs.
+Proof. vm_compute. split; [reflexivity|discriminate]. Qed.
+
+(* (d) a number token ending in '-' at the end of a line *)
+Example exc_d :
+  let rs := runes_of ("version 1-," ++ NLs ++ "foo") in
+  c11_hyps TokWF.T1 rs = (true, false) /\ differs TokWF.T1 rs.
+Proof. vm_compute. split; [reflexivity|discriminate]. Qed.
+(* ... but not at the end of the text, where no line break is written *)
+Example exc_d_end :
+  let rs := runes_of "version 1-," in
+  c11_hyps TokWF.T1 rs = (true, true) /\ c11_lhs TokWF.T1 rs = c11_rhs TokWF.T1 rs.
+Proof. vm_compute. split; reflexivity. Qed.
+
+(* (b) a hyphen before a line break is harmless for letter words (the writer
+   now emits one newline per line step) ... *)
+Example exc_b_ok :
+  let rs := runes_of ("x" ++ NLs ++ "(-" ++ NLs ++ ") y non-" ++ NLs ++ "exclusive z") in
+  c11_hyps TokWF.T1 rs = (true, true) /\ c11_lhs TokWF.T1 rs = c11_rhs TokWF.T1 rs.
+Proof. vm_compute. split; reflexivity. Qed.
+(* ... and only bites through (d): "1-\n- a" joins to the number word "1-",
+   which ends the written line 1 *)
+Example exc_b :
+  let rs := runes_of ("1-" ++ NLs ++ "- a") in
+  c11_hyps TokWF.T1 rs = (true, false) /\ differs TokWF.T1 rs.
+Proof. vm_compute. split; [reflexivity|discriminate]. Qed.
+
+(* (c') "HTTPS://x.y": Part B fails (raw "Httpsxy", matching "httpxy") and so
+   does (c), but the property itself holds for this input *)
+Example exc_cap_https :
+  let rs := runes_of "see HTTPS://x.y now" in
+  c11_hyps TokWF.T1 rs = (false, false) /\ c11_lhs TokWF.T1 rs = c11_rhs TokWF.T1 rs /\
+  c11_rhs TokWF.T1 rs <> map (normtok TokWF.T1) (filter non_eol (d_toks (tokenize_runes TokWF.T1 false rs))).
+Proof. vm_compute. repeat split; try reflexivity; discriminate. Qed.
+
+(* (e) NEW: a numeric character reference producing an upper-case letter.
+   html.UnescapeString runs after the lower-casing, so Match sees "Abc" while
+   the re-tokenised Normalize output gives "abc".  T1 with the one-entry
+   unescape table "&#65;bc" -> "Abc" (what html.UnescapeString returns). *)
+Definition T1_entity : tables :=
+  {| is_letter := is_letter TokWF.T1; is_digit := is_digit TokWF.T1; is_space := is_space TokWF.T1;
+     to_lower := to_lower TokWF.T1; punct_map := punct_map TokWF.T1;
+     is_list_marker := is_list_marker TokWF.T1; interchangeable := interchangeable TokWF.T1;
+     unescape := fun w => if existsb (N.eqb 38) w
+                          then (if word_eqb w (runes_of "&#65;bc") then runes_of "Abc" else w)
+                          else w |}.
+Example exc_e :
+  let rs := runes_of "&#65;bc x" in
+  c11_hyps T1_entity rs = (false, true) /\
+  c11_lhs T1_entity rs = [(runes_of "abc", 1); (runes_of "x", 1)] /\
+  c11_rhs T1_entity rs = [(runes_of "Abc", 1); (runes_of "x", 1)].
+Proof. vm_compute. repeat split; reflexivity. Qed.
+(* a '&' that html.UnescapeString leaves alone is fine *)
+Example amp_ok :
+  let rs := runes_of "R&D AT&T x" in
+  c11_hyps TokWF.T1 rs = (true, true) /\ c11_lhs TokWF.T1 rs = c11_rhs TokWF.T1 rs.
+Proof. vm_compute. split; reflexivity. Qed.
+
+Print Assumptions tables_ok_T0.
+Print Assumptions tables_ok_T1.
+Print Assumptions retokenize_normalized.
+Print Assumptions raw_vs_norm.
+Print Assumptions raw_tok_good.
+Print Assumptions raw_mono.
+Print Assumptions canon_split.
+Print Assumptions C11_restricted_canon.
+Print Assumptions C11_restricted.
+Print Assumptions ex_ok_concl.
